@@ -316,6 +316,28 @@ Section Matching.
   Qed.
 End Matching.
 
+(* ------------------------------------------------------------------ the same statements for the ported matcher (closed facts) *)
+Definition p_star_empty_group : bytes := [cSLASH; cSTAR; cOPEN; cCLOSE].     (* slash star brace-open brace-close *)
+
+(* rendering rewrites: the pattern slash-doublestar-slash-star does not match the root path, its only rendered variant does *)
+Lemma ported_normalised_variant_refuted :
+  exists p t rs path, parse_pattern p = Some t /\ render_all t = Some rs /\ normal_form t = false /\ expand t = [p] /\
+                      path_pattern_matches p path <> existsb (fun v => path_pattern_matches v path) rs.
+Proof.
+  apply (normalised_variant_refuted path_pattern_matches); vm_compute; reflexivity.
+Qed.
+
+(* even WITHOUT any rewriting the matcher does not treat groups as "some syntactic expansion matches": a star directly before
+   a group is consumed before the alternative is spliced in. The pattern is in normal form, its only expansion is slash-star,
+   which matches the root path, while the pattern itself does not *)
+Lemma ported_syntactic_expansion_refuted :
+  exists p t path, parse_pattern p = Some t /\ normal_form t = true /\
+                   path_pattern_matches p path = false /\ existsb (fun s => path_pattern_matches s path) (expand t) = true.
+Proof.
+  exists p_star_empty_group. eexists. exists [cSLASH].
+  split; [vm_compute; reflexivity|]. split; [vm_compute; reflexivity|]. split; vm_compute; reflexivity.
+Qed.
+
 (* ------------------------------------------------------------------ Compare *)
 Lemma bytes_cmp_antisym : forall a b, bytes_cmp b a = CompOpp (bytes_cmp a b).
 Proof.
